@@ -94,8 +94,15 @@ def h_perturb(cx, sp, comp, idx):
         cx.check('unequal_only_if_changed', cx.any_of([dl != 0 for dl in deltas]))
 
 
-def h_equivalence(cx, sp, edited=False):
-    obj, info = shapes.build(cx, sp)
+def h_equivalence(cx, sp, edited=False, tuple_kv=False):
+    obj, info = shapes.build(cx, sp, normalize_kv=not tuple_kv)
+    if tuple_kv:
+        # knot vectors handed over as tuples (kept as they are when normalize_kv=False)
+        if obj.pdimension == 1:
+            obj.knotvector = tuple(obj.knotvector)
+        else:
+            for d in shapes.DIRS[:obj.pdimension]:
+                setattr(obj, 'knotvector_' + d, tuple(getattr(obj, 'knotvector_' + d)))
     if edited:
         # every view was read (and the shape compared) before, then one stored control point is overwritten through the
         # list the getter hands out; whatever that does to the shape, the copy taken afterwards is a copy of it
@@ -120,7 +127,7 @@ def h_equivalence(cx, sp, edited=False):
     cx.check('vs_number', (obj == 3) is False)
     # a second, independently built shape with the same definition
     if not edited:
-        obj2, _ = shapes.build(cx, sp)
+        obj2, _ = shapes.build(cx, sp, normalize_kv=not tuple_kv)
         cx.check('same_definition_equal', (obj == obj2) is True)
 
 
@@ -183,6 +190,7 @@ def instances(tier):
         nm = spec_name(sp)
         out.append(inst('%s equivalence' % nm, h_equivalence, sp=sp))
         out.append(inst('%s equivalence after an edit through a getter list' % nm, h_equivalence, sp=sp, edited=True))
+        out.append(inst('%s equivalence with tuple knot vectors' % nm, h_equivalence, sp=sp, tuple_kv=True))
         for d in range(len(sp['degs'])):
             out.append(inst('%s knots %s affine' % (nm, shapes.DIRS[d]), h_perturb, sp=sp, comp='knots_affine', idx=d))
         sizes = [len(k) - d - 1 for k, d in zip(sp['kvs'], sp['degs'])]
